@@ -257,6 +257,8 @@ class SerializationMethodVisitor(
                     },
                     fallback,
                 )
+            # TypedDict instances cannot be told apart without their discriminator field
+            raise TypeError(f"{Union[tuple(types)]} can't be discriminated")
         else:
             return UnionMethod(
                 tuple(
